@@ -32,7 +32,12 @@ def gen_case(r, k):
     if mask is not None and mask.all():
         mask = None
     err = gens.error_map(r, ny, nx)
-    if err is not None and r.random() < 0.4:                     # non-finite errors are masked automatically, with or without a mask argument
+    if k % 6 == 4:
+        # an error map held in a small integer dtype whose squares do not fit it (seed C19-r11: squared in that dtype)
+        dt_ = [np.uint16, np.int16, np.uint8][(k // 6) % 3]
+        lo_, hi_ = {np.uint16: (260, 400), np.int16: (190, 300), np.uint8: (20, 200)}[dt_]
+        err = np.random.RandomState(r.randrange(2 ** 31)).randint(lo_, hi_, size=(ny, nx)).astype(dt_)
+    elif err is not None and r.random() < 0.4:                     # non-finite errors are masked automatically, with or without a mask argument
         for _ in range(r.randint(1, 3)):
             err[r.randrange(ny), r.randrange(nx)] = r.choice([np.nan, np.inf])
     t = r.random()
@@ -77,7 +82,8 @@ def aperture_sums(c, radii):
         ap = CircularAperture(c['xy'], rad)
         with warnings.catch_warnings():
             warnings.simplefilter('ignore')
-            f, e = ap.do_photometry(data, error=c['err'], mask=mask, method=c['method'], subpixels=c['sub'])
+            # (the reference works on the VALUES of the error map: float64, whatever dtype the profile classes are given)
+            f, e = ap.do_photometry(data, error=None if c['err'] is None else np.asarray(c['err'], np.float64), mask=mask, method=c['method'], subpixels=c['sub'])
             a = ap.area_overlap(data, mask=mask, method=c['method'], subpixels=c['sub'])
         fl.append(float(f[0]))
         er.append(float(e[0]) if c['err'] is not None else None)
